@@ -1024,7 +1024,8 @@ pub fn supervisor_main(prop: &dyn Prop, cfg: RunCfg) -> i32 {
         .sum();
 
     // replay files
-    let _ = std::fs::create_dir_all("/verif/replays");
+    let out_dir = std::env::var("LSMC_OUT_DIR").unwrap_or_else(|_| "/verif".to_string());
+    let _ = std::fs::create_dir_all(format!("{}/replays", out_dir));
     let mut lines = Vec::new();
     let mut seen_sigs = Vec::new();
     // shortest signature first: for history searches that is the shortest counterexample
@@ -1038,7 +1039,7 @@ pub fn supervisor_main(prop: &dyn Prop, cfg: RunCfg) -> i32 {
         fnv(&mut h, v.sig.as_bytes());
         fnv(&mut h, v.dom.as_bytes());
         fnv(&mut h, &v.idx.to_le_bytes());
-        let path = format!("/verif/replays/{}-{:08x}.json", cfg.prop_id, h as u32);
+        let path = format!("{}/replays/{}-{:08x}.json", out_dir, cfg.prop_id, h as u32);
         let body = json!({
             "property": cfg.prop_id, "tier": cfg.tier.name(), "c01_mode": cfg.c01, "domain": v.dom, "index": v.idx, "signature": v.sig,
             "detail": v.detail, "replay_cmd": format!("/verif/bin/check replay {}", path),
@@ -1093,8 +1094,8 @@ pub fn supervisor_main(prop: &dyn Prop, cfg: RunCfg) -> i32 {
         "violations": unknown_count,
         "known_findings": known_lines,
     });
-    let _ = std::fs::create_dir_all("/verif/evidence");
-    let path = format!("/verif/evidence/{}.json", cfg.prop_id);
+    let _ = std::fs::create_dir_all(format!("{}/evidence", out_dir));
+    let path = format!("{}/evidence/{}.json", out_dir, cfg.prop_id);
     let _ = std::fs::write(&path, serde_json::to_string_pretty(&evidence).unwrap() + "\n");
 
     for n in &st.notes {
